@@ -86,12 +86,13 @@ Proof.
   destruct (inv_pend p cs Hi k2 c H2) as (x' & Hx' & Hs' & _). congruence.
 Qed.
 
-Lemma interp_kind f x y : c_kind x = c_kind y -> interp f x = interp f y.
-Proof. intros H. unfold interp. rewrite H. reflexivity. Qed.
+Lemma interp_kind f x y : c_kind x = c_kind y -> c_oneway x = c_oneway y -> interp f x = interp f y.
+Proof. intros H H2. unfold interp. rewrite H, H2. reflexivity. Qed.
 
 (* ---- updates that keep signals and seq: set_spc (to a non-New value), set_ret ---- *)
 Lemma inv_upd_keep p cs c (g : call -> call) :
-  (forall x, c_signals (g x) = c_signals x /\ c_seq (g x) = c_seq x /\ c_kind (g x) = c_kind x /\
+  (forall x, c_signals (g x) = c_signals x /\ c_seq (g x) = c_seq x /\
+             (c_kind (g x) = c_kind x /\ c_oneway (g x) = c_oneway x) /\
              (c_spc x <> SNew -> c_spc (g x) <> SNew) /\ (c_spc (g x) = SNew -> c_spc x = SNew)) ->
   Inv p cs -> Inv p (upd_nth c g cs).
 Proof.
@@ -111,7 +112,7 @@ Proof.
     destruct (nth_error cs c') as [x|] eqn:E; cbn; [|discriminate]. intros H. injection H as <-.
     destruct (Hg x) as (G1 & G2 & G3 & G4 & G5). rewrite G1, G2. intros Hin.
     destruct (Hr c' x f r E Hin) as (R1 & R2 & R3). repeat split; auto.
-    rewrite R3. apply interp_kind. symmetry. exact G3.
+    rewrite R3. destruct G3 as [G3a G3b]. apply interp_kind; symmetry; assumption.
 Qed.
 
 Lemma inv_set_spc p cs c s : s <> SNew -> Inv p cs -> Inv p (upd_nth c (set_spc s) cs).
@@ -145,7 +146,7 @@ Proof.
     rewrite Hxc. cbn. intros H. injection H as <-. cbn. rewrite Hgc. cbn.
     intros [H|[]]. injection H as H1 H2. subst r'.
     destruct (Hcz f H1) as (F1 & F2 & F3). subst k. repeat split; auto.
-    rewrite (F3 xc Hxc). apply interp_kind. reflexivity.
+    rewrite (F3 xc Hxc). apply interp_kind; reflexivity.
 Qed.
 
 Lemma inv_complete_at st k cz r :
